@@ -12,6 +12,7 @@ oracle_c02 — line protocol (threads `0..N-1`, keys `0..K-1`; `sᵢ` = shard in
   `entries`    → number of map entries                       (T-observable)
   `burst|unburst <t> <w|r> <lo> <hi>` (single-shard lockers) → lock / unlock keys lo..hi-1 one after the other; status vector
   `lockrange|unlockrange <t> <w|r> <lo> <hi>` (1-shard tkl/tkg) → ONE multi-key call over keys lo..hi-1 (up to 6500 keys)
+  `remap <p>` → `ok` (another ReMap and locker with p shards are created and used; routing here is unaffected)
   `mutate <k>` → `ok` (pointer keys: the pointee changes, the key does not)
   key kinds `ptr`/`flt` on group lockers: remap cannot route them, every lock call answers `unroutable`
   `stress <G> <iters>` → `ok` (G goroutines hammer a fresh locker of the same shape; monitors only)
@@ -188,7 +189,7 @@ def parseInit (ws : List String) : Option Env :=
       let single := kind == "kl" || kind == "tkl"
       let multi := kind == "tkl" || kind == "tkg"
       let known := single || kind == "klg" || kind == "tkg"
-      if known && (hash == "mod" || hash == "xh" || hash == "str" || hash == "neg" || hash == "n64" || hash == "hit" || hash == "ptr" || hash == "flt") && n ≥ 1 && n ≤ 100 && nT ≥ 1 && nT ≤ 48 && nK ≥ 1 && nK ≤ 48 && shs.length == nK && shs.all (· < n) && (!single || n == 1) && (hash != "flt" || !single) && (hash != "hit" || !multi) && (hash != "n64" || multi) && ((hash != "neg" && hash != "n64") || nK ≤ 12)
+      if known && (hash == "mod" || hash == "xh" || hash == "str" || hash == "neg" || hash == "n64" || hash == "hit" || hash == "ptr" || hash == "flt" || hash == "bsx" || hash == "col") && n ≥ 1 && n ≤ 100 && nT ≥ 1 && nT ≤ 48 && nK ≥ 1 && nK ≤ 48 && shs.length == nK && shs.all (· < n) && (!single || n == 1) && (hash != "flt" || !single) && (hash != "bsx" || kind == "klg") && (hash != "col" || kind == "klg" || kind == "tkg") && (hash != "hit" || !multi) && (hash != "n64" || multi) && ((hash != "neg" && hash != "n64") || nK ≤ 12)
       then some ⟨(hash == "ptr" || hash == "flt") && !single, multi, n, shs, nT, nK⟩ else none
     | _, _, _, _ => none
   | _ => none
@@ -295,6 +296,12 @@ def step (os : OS) (line : String) : OS × String :=
               | none => "r=0 w=0 p=0"
               | some o => s!"r={(s.objs o).rc} w={(s.objs o).wc} p=1"))
           else (os, "bad-op")
+        | none => (os, "bad-op")
+      | ["remap", p] =>
+        -- the process creates another ReMap / locker with p shards: routing of THIS locker is a pure function of the key
+        -- and its own shard count (`sh` is a parameter of the transition system), so nothing changes
+        match strictNat? p with
+        | some p => if p ≥ 1 && p ≤ 100 then (os, "ok") else (os, "bad-op")
         | none => (os, "bad-op")
       | ["mutate", k] =>
         -- the key object is modified in place (pointer keys): its identity, hence the key, is unchanged
